@@ -117,7 +117,7 @@ def judge(rep: Report, case: dict, im: dict, mo: dict, label: str, exact: bool) 
     if im["v"] == "harness":
         rep.violation({"what": "the checked call did not finish", **rec})
         return
-    if im["v"] == "accept" and ref["v"] != "accept":
+    if im["v"] == "accept" and ref["v"] not in ("accept", "unknown"):
         rep.violation({"what": "accepted although no consistent assignment exists", **rec})
         return
     if exact:
